@@ -42,16 +42,25 @@ def dotted_parents(fullname):
     return [".".join(parts[:i]) for i in range(1, len(parts))]
 
 
+def d15_prone(imp):
+    """`import K` where K is a proper dotted prefix of some pool fullname: forgetting it is the known finding D15."""
+    fn, ia = imp
+    return fn == ia and any(k[0].startswith(fn + ".") for k in KNOWN_POOL + MAND_POOL)
+
+
+_EXACT_POOL = [i for i in KNOWN_POOL + MAND_POOL if not d15_prone(i)]
+
+
 def gen_forget(rng):
     out = []
     for _ in range(rng.randint(1, 3)):
         r = rng.random()
-        if r < 0.45:
-            out.append(list(rng.choice(KNOWN_POOL + MAND_POOL)))
-        elif r < 0.60:
+        if r < 0.50:
+            out.append(list(rng.choice(_EXACT_POOL)))
+        elif r < 0.66:
             out.append(list(rng.choice(STAR_FORGET)))
-        elif r < 0.72:
-            # a derived parent-package entry (D15 territory)
+        elif r < 0.68:
+            # a (possibly derived) parent-package entry: D15 territory, kept at a low rate
             fn = rng.choice(KNOWN_POOL)[0]
             ps = dotted_parents(fn)
             if ps:
@@ -62,7 +71,8 @@ def gen_forget(rng):
         elif r < 0.90:
             # the Import a canonical key/value stands for: Import("a.b") == from a import b
             n = rng.choice(CANON_NAMES)
-            out.append([n, n.split(".")[-1]])
+            imp = [n, n.split(".")[-1]]
+            out.append(imp if not d15_prone(imp) else list(rng.choice(_EXACT_POOL)))
         else:
             out.append(list(rng.choice(RARE_POOL)))
     return out
